@@ -8,10 +8,12 @@ import (
 	"os"
 	"strings"
 	"sync"
+	"sync/atomic"
 	"testing"
 	"time"
 
 	"github.com/btcsuite/btcd/btcec/v2"
+	"github.com/elementsproject/peerswap/lwk"
 	"github.com/elementsproject/peerswap/premium"
 	"github.com/elementsproject/peerswap/swap"
 	"github.com/elementsproject/peerswap/txwatcher"
@@ -173,11 +175,24 @@ func runC18(r *Run, seed int64, c c18Case) {
 	tag := fmt.Sprintf("%s|%s|%s|csv=%s|%s", c.chain, c.typ, c.watcher, c.csvState, c.stimulus)
 	if !returned {
 		// two dumps one second apart must show the same lock cycle
-		c1, s1 := lockCycle(takeDump(), ptr)
+		d1 := takeDump()
+		c1, s1 := lockCycle(d1, ptr)
+		k1, t1 := stuckInEvent(d1, ptr)
 		time.Sleep(time.Second)
-		c2, _ := lockCycle(takeDump(), ptr)
+		d2 := takeDump()
+		c2, _ := lockCycle(d2, ptr)
+		k2, _ := stuckInEvent(d2, ptr)
 		if c1 != "" && c1 == c2 {
 			r.Violate("no-deadlock", "C18|"+c1+"|"+c.stimulus+"|csv="+c.csvState+"|"+c.watcher, fmt.Sprintf("delivery of %s did not return; the same lock cycle is visible in two goroutine dumps 1 s apart; case %+v seed %d\n%s", c.stimulus, c, seed, s1), traceOf(w))
+		} else if k1 != "" && k1 == k2 {
+			// the holder of the swap mutex is blocked in peerswap's own synchronisation (channel, lock), not in
+			// a service: a third dump must show the same
+			time.Sleep(1500 * time.Millisecond)
+			if k3, _ := stuckInEvent(takeDump(), ptr); k3 == k1 {
+				r.Violate("no-deadlock", "C18|"+k1+"|"+c.stimulus+"|csv="+c.csvState+"|"+c.watcher, fmt.Sprintf("delivery of %s did not return; in three goroutine dumps over 2.5 s the goroutine handling the event sits at the same blocking operation inside peerswap code while holding the swap's mutex; case %+v seed %d\n%s", c.stimulus, c, seed, t1), traceOf(w))
+			} else {
+				r.Inconclusive(fmt.Sprintf("stimulus did not return within the watchdog; blocked position changed between dumps (%q / %q); case %+v", k1, k3, c))
+			}
 		} else {
 			r.Inconclusive(fmt.Sprintf("stimulus did not return within the watchdog but no stable lock cycle was found (%q / %q); case %+v", c1, c2, c))
 		}
@@ -227,12 +242,129 @@ func runC18(r *Run, seed int64, c c18Case) {
 	}
 }
 
+// runC18Watcher replays one C20 block history against a real watcher whose confirmation consumer is slow, then
+// asks: does the watcher still process chain notifications? A fresh CSV registration that matures afterwards must
+// be reported. If it is not, a second, brand-new watcher over the same chain gets the same registration as a
+// control: only if the control reports while the first watcher stays silent is the first one declared blocked.
+func runC18Watcher(r *Run, seed int64, c c20Case) {
+	c.seed = seed
+	c.probe = func(watch c20Watch, chain *sim.Chain, offset uint32, pause func(), reports func() []c20Report) {
+		script := append([]byte{0x00, 0x20}, randBytes(32)...)
+		var txHex string
+		if c.backend == "bitcoind" {
+			txHex, _ = buildBtcTx(1, []outSpec{{Script: script, Value: 50_000}})
+		} else {
+			txHex, _, _ = buildLiquidTx(1, []outSpec{{Script: script, Value: 50_000, Explicit: true}})
+		}
+		tx, err := chain.AddWalletTx(txHex, "maker", "open")
+		if err != nil {
+			r.Inconclusive("probe tx: " + err.Error())
+			return
+		}
+		chain.Mine(1)
+		pause()
+		id := swap.NewSwapId().String()
+		start := chain.Height() + offset
+		watch.AddWaitForCsvTx(id, tx.ID, 0, start, 4, script)
+		got := func(want string) bool {
+			for _, rp := range reports() {
+				if rp.kind == "csv" && rp.swap == want {
+					return true
+				}
+			}
+			return false
+		}
+		for i := 0; i < 60 && !got(id); i++ {
+			if i < 6 {
+				chain.Mine(1)
+			}
+			pause()
+		}
+		r.Eval()
+		tag := c.backend + "|" + c.pattern
+		if got(id) {
+			r.Seen("watcher-alive/" + tag)
+			r.Count("watcher_probes_answered", 1)
+			return
+		}
+		// control: a new watcher of the same kind over the same chain
+		ctx, cancel := context.WithCancel(context.Background())
+		defer cancel()
+		var ctl c20Watch
+		var el *sim.ElectrumFacade
+		if c.backend == "electrum" {
+			el = &sim.ElectrumFacade{C: chain}
+			ew, err := lwk.NewElectrumTxWatcher(el)
+			if err != nil {
+				r.Inconclusive(err.Error())
+				return
+			}
+			ctl = ew
+		} else {
+			confs := uint32(2)
+			if c.backend == "bitcoind" {
+				confs = 3
+			}
+			ctl = txwatcher.NewBlockchainRpcTxWatcher(ctx, &sim.RpcFacade{C: chain}, confs)
+		}
+		var cmu sync.Mutex
+		ctlGot := false
+		id2 := swap.NewSwapId().String()
+		ctl.AddConfirmationCallback(func(string, string, error) error { return nil })
+		ctl.AddCsvCallback(func(s string) error {
+			cmu.Lock()
+			if s == id2 {
+				ctlGot = true
+			}
+			cmu.Unlock()
+			return nil
+		})
+		if ctl.StartWatchingTxs() != nil {
+			r.Inconclusive("control watcher did not start")
+			return
+		}
+		ctl.AddWaitForCsvTx(id2, tx.ID, 0, start, 4, script)
+		ok := false
+		for i := 0; i < 60 && !ok; i++ {
+			if i < 3 {
+				chain.Mine(1)
+			}
+			if el != nil {
+				el.NotifyTip()
+			}
+			pause()
+			cmu.Lock()
+			ok = ctlGot
+			cmu.Unlock()
+		}
+		if ok && !got(id) {
+			d := takeDump()
+			var stacks []string
+			for _, g := range d {
+				all := strings.Join(g.frames, "\n")
+				if (strings.HasPrefix(g.state, "chan send") || strings.HasPrefix(g.state, "sync.Mutex.Lock") || strings.HasPrefix(g.state, "sync.RWMutex")) &&
+					(strings.Contains(all, "peerswap/txwatcher.") || strings.Contains(all, "peerswap/electrum.") || strings.Contains(all, "peerswap/lwk.")) {
+					stacks = append(stacks, "["+g.state+"]\n"+all)
+				}
+			}
+			if len(stacks) > 6 {
+				stacks = stacks[:6]
+			}
+			r.Violate("no-deadlock", "C18|chain-notifications-no-longer-processed|"+tag,
+				fmt.Sprintf("after the block history (confirmation consumer taking 8 ms) the watcher never reported a CSV registration that matured %d blocks ago, while a fresh watcher over the same chain reported the same registration at once; case %+v seed %d\nblocked watcher goroutines:\n%s", 6, c, seed, strings.Join(stacks, "\n--\n")), nil)
+			return
+		}
+		r.Inconclusive(fmt.Sprintf("watcher probe unanswered but the control watcher was silent too (%s)", tag))
+	}
+	runC20(r, c)
+}
+
 func TestC18(t *testing.T) {
 	txwatcher.VerifSetPolling(time.Millisecond, time.Millisecond)
 	swap.VerifSetRetryDur(5 * time.Millisecond)
 	r := newRun(t, "C18", "exploration")
 	defer r.Finish()
-	r.Rule = "real makers (both roles, both chains) with the REAL BlockchainRpcTxWatcher / LWK Electrum watcher behind the state machine are driven to their payment-waiting state; for each CSV state of the opening output {not yet, exactly matured, long matured} a stimulus {cancel, invalid message, coop_close with a wrong key} is delivered, with and without concurrent block notifications and ListActiveSwaps/HasActiveSwaps calls. A stimulus that does not return is a violation only if two goroutine dumps one second apart show the same lock cycle (same SwapStateMachine.SendEvent twice on one goroutine blocked in Mutex.Lock, or a swap-mutex/watcher-lock ABBA pair); otherwise inconclusive. After the stimulus the refund must happen once the CSV has matured. distinct = (chain, role, watcher, csv state, stimulus, outcome)"
+	r.Rule = "real makers (both roles, both chains) with the REAL BlockchainRpcTxWatcher / LWK Electrum watcher behind the state machine are driven to their payment-waiting state; for each CSV state of the opening output {not yet, exactly matured, long matured} a stimulus {cancel, invalid message, coop_close with a wrong key} is delivered, with and without concurrent block notifications and ListActiveSwaps/HasActiveSwaps calls. A stimulus that does not return is a violation only if two goroutine dumps one second apart show the same lock cycle (same SwapStateMachine.SendEvent twice on one goroutine blocked in Mutex.Lock, or a swap-mutex/watcher-lock ABBA pair), or if three dumps over 2.5 s show the goroutine that handles the event (inside SendEvent, holding the swap mutex) at the same blocking channel/lock operation in peerswap code with no simulated service underneath; otherwise inconclusive. After the stimulus the refund must happen once the CSV has matured. (ii) C20's block histories against the real watchers with a confirmation consumer that takes 8 ms; afterwards a fresh CSV registration must be reported; an unanswered probe is a violation only if a brand-new control watcher over the same chain reports the same registration. distinct = (chain, role, watcher, csv state, stimulus, outcome) ∪ watcher-alive/(backend, pattern)"
 	r.Assumptions = []string{"all simulated services answer instantly, so a goroutine blocked in Mutex.Lock for >1 s is not waiting for the environment", "the LND chain-notifier watcher is not exercised"}
 	var cases []c18Case
 	for _, ch := range []string{"btc", "lbtc"} {
@@ -257,6 +389,17 @@ func TestC18(t *testing.T) {
 	}
 	reps := r.N(1, 12)
 	parallelDo(len(cases)*reps, 8, func(i int) { runC18(r, r.Seed*3167+int64(i)+1, cases[i%len(cases)]) })
+	// (ii) chain-notification handling of the real watchers keeps going: block histories of C20 with a consumer that
+	// takes 8 ms for a confirmation report (a taker paying), then a fresh CSV registration must be reported
+	var wcases []c20Case
+	for _, be := range []string{"bitcoind", "elementsd", "electrum"} {
+		for _, pat := range []string{"plain", "burst", "blocks-between-calls", "registered-after-the-fact", "window-edge", "confirm-late-between-calls"} {
+			for k := 0; k < r.N(2, 12); k++ {
+				wcases = append(wcases, c20Case{backend: be, pattern: pat, slow: 8 * time.Millisecond})
+			}
+		}
+	}
+	parallelDo(len(wcases), 6, func(i int) { runC18Watcher(r, r.Seed*6151+int64(i)+1, wcases[i]) })
 	sr, _ := r.Extra["stimuli_returned"].(int)
 	r.Sample(map[string]any{"case": "btc swap-out maker, output 1058 blocks deep, taker sends cancel", "expectation": "cancel is processed, CSV refund follows"})
 	r.Require(sr+len(r.Violations) >= len(cases)*reps*3/4, fmt.Sprintf("only %d stimuli returned in %d scenarios", sr, len(cases)*reps))
@@ -323,9 +466,17 @@ func runC19World(r *Run, seed int64) {
 		}
 	}
 	// concurrent entry points
+	// in a third of the worlds the chains jump past the CSV depth once, so that the watchers' csv-passed callbacks
+	// run while the swaps are still being paid, cancelled and restarted
+	deep := rng.Intn(2) == 0
+	var blockRounds atomic.Int32
 	bg(func() { // blocks on both chains -> real watcher callbacks
 		w.BTC.Mine(1)
 		w.LBTC.Mine(1)
+		if deep && blockRounds.Add(1) == 12 {
+			w.BTC.Mine(int(ref.CSV("btc", 7)) + 3)
+			w.LBTC.Mine(int(ref.CSV("lbtc", 7)) + 3)
+		}
 		ra.notify()
 		rb.notify()
 		time.Sleep(time.Millisecond)
@@ -345,28 +496,35 @@ func runC19World(r *Run, seed int64) {
 			})
 		}
 	})
-	bg(func() { // policy operations
+	bg(func() { // policy edits (operator RPCs)
 		if inc := a.Inc(); inc != nil && inc.Policy != nil {
 			p := inc.Policy
 			k := hx(append([]byte{2}, randBytes(32)...))
-			switch lr(6) {
+			switch lr(4) {
 			case 0:
 				p.AddToAllowlist(k)
 				p.RemoveFromAllowlist(k)
 			case 1:
 				p.ReloadFile()
 			case 2:
-				p.NewSwapsAllowed()
-				p.IsPeerAllowed(k)
-				p.IsPeerSuspicious(k)
-			case 3:
 				p.DisableSwaps()
 				p.EnableSwaps()
-			case 4:
-				p.Get()
-			case 5:
-				p.GetMinSwapAmountMsat()
+			case 3:
+				p.AddToSuspiciousPeerList(k)
+				p.RemoveFromSuspiciousPeerList(k)
 			}
+		}
+	})
+	bg(func() { // policy readers (what request handling and peer-sync consult), concurrently with the edits
+		if inc := a.Inc(); inc != nil && inc.Policy != nil {
+			p := inc.Policy
+			k := hx(append([]byte{2}, randBytes(32)...))
+			p.NewSwapsAllowed()
+			p.IsPeerAllowed(k)
+			p.IsPeerSuspicious(k)
+			p.Get()
+			p.GetMinSwapAmountMsat()
+			p.GetReserveOnchainMsat()
 		}
 	})
 	bg(func() { // premium settings
@@ -424,7 +582,7 @@ func TestC19(t *testing.T) {
 		r.Inconclusive("not a race-detector build (run through ./check, which builds with -race)")
 		return
 	}
-	n := r.N(30, 300)
+	n := r.N(60, 400)
 	parallelDo(n, 3, func(i int) { runC19World(r, r.Seed*4261+int64(i)+1) })
 	// concurrent channel acquisition and peersync under the race detector as well
 	parallelDo(r.N(10, 100), 4, func(i int) { runC10Conc(r, r.Seed*977+int64(i)+1) })
@@ -488,6 +646,17 @@ func runC22(r *Run, seed int64, c c22Case) {
 	m := w.AddNode("alice", sim.DefaultNodeConfig())
 	tk := w.AddPeer("mallory")
 	w.LN.OpenChannel("100x1x0", m.ID, tk.ID, 5_000_000_000, 5_000_000_000)
+	var unreachable, lateOn atomic.Bool
+	var lateAttempts atomic.Int32
+	m.Fault = func(op string) error {
+		if op == fmt.Sprintf("msg.send:%d", ref.MsgOpeningTxBroadcast) && unreachable.Load() {
+			if lateOn.Load() {
+				lateAttempts.Add(1)
+			}
+			return fmt.Errorf("peer is not connected")
+		}
+		return nil
+	}
 	if m.Start() != nil {
 		return
 	}
@@ -523,6 +692,11 @@ func runC22(r *Run, seed int64, c c22Case) {
 		tk.Send("alice", ref.MsgCoopClose, &swap.CoopCloseMessage{SwapId: id, Message: "x", Privkey: "zz"})
 	case "csv":
 		chain.Mine(int(ref.CSV(c.chain, 7)) + 2)
+	case "csv-unreachable":
+		// the taker disconnects: every further send of the announcement fails; then the CSV matures
+		unreachable.Store(true)
+		time.Sleep(3 * interval)
+		chain.Mine(int(ref.CSV(c.chain, 7)) + 2)
 	case "restart":
 		m.Restart()
 	}
@@ -532,8 +706,17 @@ func runC22(r *Run, seed int64, c c22Case) {
 	// >= 24 retry intervals after the swap moved on, with a marker in the log after the first half
 	time.Sleep(12 * interval)
 	w.Emit("alice", 0, "c22.late", sim.EvNote{Note: "12 retry intervals after the continuation"})
-	time.Sleep(12 * interval)
+	lateOn.Store(true)
+	if c.cont == "csv-unreachable" {
+		time.Sleep(2300 * time.Millisecond) // send attempts to an unreachable peer may be paced in seconds
+	} else {
+		time.Sleep(12 * interval)
+	}
 	w.Run()
+	if n := lateAttempts.Load(); n > 1 {
+		r.Violate("stops-when-moved-on", fmt.Sprintf("C22|send-attempts-continue-while-peer-unreachable|%s|%s", c.typ, c.cont),
+			fmt.Sprintf("%d attempts to send opening_tx_broadcasted to the unreachable peer later than 12 retry intervals after the swap had moved on; case %+v seed %d", n, c, seed), traceOf(w))
+	}
 	// ---- oracle ------------------------------------------------------------------------
 	waiting := map[string]bool{"State_SwapInSender_SendTxBroadcastedMessage": true, "State_SwapInSender_AwaitClaimPayment": true,
 		"State_SwapOutReceiver_SendTxBroadcastedMessage": true, "State_SwapOutReceiver_AwaitClaimInvoicePayment": true}
@@ -615,12 +798,12 @@ func TestC22(t *testing.T) {
 	swap.VerifSetRetryDur(c22Interval)
 	r := newRun(t, "C22", "exploration")
 	defer r.Finish()
-	r.Rule = "real makers (both roles, both chains) with the real RedundantMessenger goroutines (retry interval 5 ms through the verif hook) announce their opening tx to a scripted taker; after a few retransmissions the history continues with {payment, cancel, good coop_close, coop_close with a wrong key, invalid message, CSV maturity, restart} and runs for >= 24 more retry intervals, with a marker written to the log after the first 12. Oracle over the recorded log: copies byte-identical, never more than one live retransmitter per swap (AddSender/RemoveSender seen through a decorator of the real Manager), and retransmission has stopped: at most one copy after the marker once the first committed record in a non-waiting state exists (within that incarnation). Copies between the move and the marker beyond the first are counted (extra_due_copies_after_move), not judged: with the interval shrunk from 10 s to 5 ms a stopped sender can find further ticks already due. distinct = (chain, role, continuation, final state, copies after move)"
+	r.Rule = "real makers (both roles, both chains) with the real RedundantMessenger goroutines (retry interval 5 ms through the verif hook) announce their opening tx to a scripted taker; after a few retransmissions the history continues with {payment, cancel, good coop_close, coop_close with a wrong key, invalid message, CSV maturity, restart, CSV maturity while the taker is unreachable (every send fails; observed for 2.3 s, send attempts counted at the boundary)} and runs for >= 24 more retry intervals, with a marker written to the log after the first 12. Oracle over the recorded log: copies byte-identical, never more than one live retransmitter per swap (AddSender/RemoveSender seen through a decorator of the real Manager), and retransmission has stopped: at most one copy after the marker once the first committed record in a non-waiting state exists (within that incarnation). Copies between the move and the marker beyond the first are counted (extra_due_copies_after_move), not judged: with the interval shrunk from 10 s to 5 ms a stopped sender can find further ticks already due. distinct = (chain, role, continuation, final state, copies after move)"
 	r.Assumptions = []string{"wall-clock time only decides how many copies are observed; the verdict compares positions in the event log", "a stopped sender does not find ticks due for 12 consecutive intervals (it leaves its loop with probability 1/2 per due tick)"}
 	var cases []c22Case
 	for _, ch := range []string{"btc", "lbtc"} {
 		for _, ty := range []string{"in", "out"} {
-			for _, ct := range []string{"payment", "cancel", "coop-good", "coop-bad", "invalid", "csv", "restart"} {
+			for _, ct := range []string{"payment", "cancel", "coop-good", "coop-bad", "invalid", "csv", "restart", "csv-unreachable"} {
 				cases = append(cases, c22Case{ch, ty, ct})
 			}
 		}
